@@ -2,6 +2,7 @@ package main
 
 import (
 	"fmt"
+	"strings"
 
 	flags "github.com/jessevdk/go-flags"
 )
@@ -100,7 +101,83 @@ func c10Run(c *Ctx) {
 	if inter > 3 {
 		inter = 3
 	}
+	// a second parse on the same parser binds again from the first declared positional (one case in three)
+	reused := false
+	if c.K%3 == 0 && bound > 0 {
+		sc2 := GenScenario(c.Sub("reuse"), d, &ScenCfg{MaxItems: 8, POcc: 0, PCluster: 0, PPos: 80, PCmd: 20, PTerm: 0, PQuoted: 0})
+		if sc2.Exp.Unspec == "" && !sc2.NeedsCommand() {
+			args2 := sc2.Args()
+			before := map[*PosArg]string{}
+			for _, cm := range d.Cmds {
+				if cm.Pos != nil {
+					for _, a := range cm.Pos.Args {
+						if a.Val.IsValid() {
+							before[a] = Canon(a.Val)
+						}
+					}
+				}
+			}
+			var err2 error
+			if pi := safely(func() { _, err2 = b.P.ParseArgs(append([]string{}, args2...)) }); pi != nil {
+				c.Violate("reuse:panic", "second ParseArgs(%q) on the same parser panicked: %s", args2, pi.Value)
+				return
+			}
+			c.Count("parses", 1)
+			if _, isSentinel := err2.(*sentinelErr); err2 != nil && !isSentinel {
+				c.Violate("reuse:valid-vector-rejected:"+errTypeName(err2), "second parse of the valid vector %q on the same parser failed: %v", args2, err2)
+				return
+			}
+			for _, cm := range sc2.Exp.Chain {
+				if cm.Pos == nil {
+					continue
+				}
+				for _, a := range cm.Pos.Args {
+					toks := sc2.Exp.PosVals[a]
+					if len(toks) == 0 || !a.Val.IsValid() {
+						continue
+					}
+					want, ok := expectedPos(a, toks)
+					if !ok {
+						continue
+					}
+					got := Canon(a.Val)
+					if a.T.W == WMap {
+						// (likewise for a map: the new entry must be there)
+						ev := newZero(a.T)
+						for _, t := range toks {
+							applyRef(ev, a.T, a.Base, t)
+						}
+						it := ev.MapRange()
+						for it.Next() {
+							if gv := a.Val.MapIndex(it.Key()); !gv.IsValid() || Canon(gv) != Canon(it.Value()) {
+								c.Violate("reuse:positional:map", "second parse %q: map positional %s of %s holds %s, expected the entry %s => %s", args2, a.DisplayName(), cm.Name, got, Canon(it.Key()), Canon(it.Value()))
+								return
+							}
+						}
+						continue
+					}
+					if a.IsRest() {
+						// whether a list keeps what an earlier parse put there is not stated: the new tokens must be its tail
+						ws := strings.TrimPrefix(want, "[")
+						if !(got == want || strings.HasSuffix(got, " "+ws)) {
+							c.Violate("reuse:positional:rest", "second parse %q: list positional %s of %s holds %s, expected the tokens %q at its end (it held %s before)", args2, a.DisplayName(), cm.Name, got, toks, before[a])
+							return
+						}
+						continue
+					}
+					if got != want {
+						c.Violate("reuse:positional:"+a.T.String(), "second parse %q on the same parser: positional %s of %s holds %s, expected %s", args2, a.DisplayName(), cm.Name, got, want)
+						return
+					}
+				}
+			}
+			reused = true
+		}
+	}
 	cell := fmt.Sprintf("fields=%d rest=%v inter=%d term=%v", minInt(nfields, 5), rest, inter, seenTerm)
+	if reused {
+		cell += " +second-parse"
+	}
 	c.Held(cell, fmt.Sprintf("bound=%d typed=%d restargs=%d optlike-after-term=%d depth=%d", bound, typed, len(sc.Exp.Rest), afterTerm, sc.Final.Depth))
 }
 
